@@ -27,7 +27,7 @@ func (x *Exec) verifyFunction(fn *ssa.Function, c *FuncContract) (rep FuncReport
 	x.partialMode = c != nil && c.Partial
 	x.partialLoops = c != nil && c.PartialLoops
 	if x.partialMode && !x.partialLoops {
-		x.trusted["partial contract: only the ensures / assert-before-call clauses of "+funcFull(fn)+" are checked; its loops, callee preconditions and run-time safety are not claimed"] = true
+		x.trusted["partial contract: the ensures / assert-before-call clauses of "+funcFull(fn)+" and the run-time safety (index, slice, nil, division) of the loop-free prefix of each of its paths are checked; its loops, callee preconditions, overflow and safety behind the first loop are not claimed"] = true
 	}
 	if x.partialLoops {
 		x.trusted["partial contract: the ensures / assert-before-call clauses, loop invariants and frame conditions of "+funcFull(fn)+" are checked; preconditions of its callees (numeric range assumptions) and run-time safety are not claimed"] = true
